@@ -1696,7 +1696,8 @@ class BaseImage(metaclass=ImageMeta):
         try:
             if isinstance(_size, Size):
                 self.set_size(_size)
-            elif check_size or animated:
+            # Dynamic sizes (e.g. `ORIGINAL`, `FIT_TO_WIDTH`) may also not fit
+            if check_size or animated:
                 terminal_size = get_terminal_size()
                 if any(
                     map(
